@@ -328,3 +328,85 @@ class MatmulShapes(Contract):
         shp = eval_shape(h, f"validate.{fn}", res)
         if shp is not None:
             oblige_shape(h, f"validate.{fn}[{ra}x{rb}]", shp, want)
+
+
+@contract
+class EinsumLengths(Contract):
+    """einsum with one index on three operand axes, each of which is
+    literally 1 or one of two independent symbolic lengths: NumPy accepts
+    exactly when all lengths other than 1 agree (a length-1 axis broadcasts);
+    accepted => NumPy accepts, and the inferred length is NumPy's."""
+    name = "validate.einsum-lengths"
+    functions = ("pytato.array:einsum",
+                 "pytato.array:_normalize_einsum_in_subscript",
+                 "pytato.array:Einsum.shape")
+    properties = ("C03",)
+
+    def instances(self, tier):
+        return [dict(label=f"{spec};lengths={''.join(k)}", spec=spec,
+                     kinds=list(k))
+                for spec in ("i,i,i->i", "ij,ij,ij->ij", "i,i,i->")
+                for k in itertools.product("1ab", repeat=3)]
+
+    def run(self, h, inst):
+        a_, b_ = h.nonneg("a"), h.nonneg("b")
+        lens = [dict([("1", 1), ("a", a_), ("b", b_)])[k]
+                for k in inst["kinds"]]
+        two = inst["spec"].startswith("ij")
+        ops = [mk_placeholder(h, f"x{i}", shape=[n, 3] if two else [n])
+               for i, n in enumerate(lens)]
+        res = build(h, "validate.einsum-lengths", pt.einsum, inst["spec"],
+                    *ops)
+        if res is None:
+            return
+        zl = [shape_term(n) for n in lens]
+        non1 = [z for z in zl]
+        ok = z3.And([z3.Or(x == 1, y == 1, x == y)
+                     for i, x in enumerate(non1) for y in non1[:i]])
+        h.oblige("validate.einsum-lengths.accepted=>numpy-accepts", ok,
+                 props=("C03",), info=inst["kinds"])
+        h.assume(ok)
+        shp = eval_shape(h, "validate.einsum-lengths", res)
+        if shp is None or inst["spec"].endswith("->"):
+            return
+        big = zl[0]
+        for z in zl[1:]:
+            big = z3.If(big == 1, z, big)
+        want = [big, z3.IntVal(3)] if two else [big]
+        oblige_shape(h, "validate.einsum-lengths", shp, want)
+
+    def replay(self, inst, clause, model, info):
+        return EINSUM_LEN_REPLAY.format(inst=inst)
+
+
+EINSUM_LEN_REPLAY = '''
+import sys
+sys.path.insert(0, "/verif")
+import numpy as np, pytato as pt
+from pyvc.replaylib import M_from, mint, reproduced, not_reproduced
+M = M_from(MODEL)
+inst = {inst!r}
+a, b = max(0, mint(M, "a", 3)), max(0, mint(M, "b", 4))
+lens = [dict([("1", 1), ("a", a), ("b", b)])[k] for k in inst["kinds"]]
+two = inst["spec"].startswith("ij")
+shapes = [(n, 3) if two else (n,) for n in lens]
+try:
+    want = np.einsum(inst["spec"], *[np.zeros(s) for s in shapes]).shape
+except ValueError as e:
+    want = e
+try:
+    node = pt.einsum(inst["spec"], *[pt.make_placeholder(f"x{{i}}", s, np.float64)
+                                     for i, s in enumerate(shapes)])
+    got = tuple(int(s) for s in node.shape)
+except ValueError as e:
+    not_reproduced(f"pytato rejects: {{e}}")
+except AssertionError as e:
+    reproduced(f"einsum({{inst['spec']!r}}) of shapes {{shapes}} is accepted but its "
+               f".shape raises AssertionError (NumPy: {{want!r}})")
+if isinstance(want, Exception):
+    reproduced(f"einsum({{inst['spec']!r}}) of shapes {{shapes}} is accepted with shape "
+               f"{{got}}; NumPy rejects: {{want}}")
+if got != want:
+    reproduced(f"einsum({{inst['spec']!r}}) of shapes {{shapes}}: shape {{got}} vs NumPy {{want}}")
+not_reproduced("agrees with NumPy")
+'''
